@@ -27,7 +27,7 @@ ASSUMPTIONS = [
     "from the next round on the fallback sample of the same timestamp is used whenever the primary is missing",
     "when the primary stream is closed, the term continues on the fallback stream; at most one timestamp is lost at the hand-over",
 ]
-BOUNDS = {"quick": "formula = one term with fallback; 4 timestamps; every validity pattern, delivery order pattern; primary closed after a symbolic number of samples (or never)",
+BOUNDS = {"quick": "formula = one term with fallback (4 timestamps) and term with fallback + plain term (3 timestamps); every validity pattern, delivery order pattern; primary closed after a symbolic number of samples (or never)",
           "thorough": "5 timestamps; additionally a second (plain) term"}
 OUTSIDE = "the real FallbackFormulaMetricFetcher engine start-up (C12 covers its formula); fallback stream errors; more timestamps"
 BUDGET = {"quick": 300, "thorough": 1800}
@@ -167,6 +167,8 @@ def instances(tier):
            I("K3", "make", (3,), "3 timestamps", budget_s=300, validate_every=100)]
     if tier == "quick":
         out.append(I("K4", "make", (4,), "4 timestamps", budget_s=600, validate_every=500))
+        out.append(I("K3-2terms", "make", (3, True), "3 timestamps, formula = term with fallback + plain term (misalignment between terms becomes visible)",
+                     budget_s=600, validate_every=500))
     else:
         out.append(I("K4", "make", (4,), "4 timestamps", budget_s=600, validate_every=500))
         out.append(I("K5", "make", (5,), "5 timestamps", budget_s=1500, validate_every=2000, exhaustive=False))
